@@ -1007,7 +1007,7 @@ func reconfHistory(c *core.Ctx, t *core.Trace, cas int) error {
 			n--
 		}
 		h.applyConfig(m)
-		if mid {
+		if mid && h.parkedAt != "poll" { // (a record that cannot be encoded is dealt with in one step)
 			h.runToPoll()
 		}
 		// a batch of records of the same time: neither the size nor the record times make it due
